@@ -339,6 +339,24 @@ fn queries_bp<A: AsRef<[u64]>, B: AsRef<[u64]>>(orig: &BalancedParens<A>, re: &B
         return Err("len".into());
     }
     let n = orig.len();
+    // positions at and past the end (padding bits of the last word, and beyond the words)
+    for p in n..n + 70 {
+        let a = caught(|| (orig.is_open(p), orig.is_close(p), orig.find_close(p), orig.first_child(p), orig.next_sibling(p), orig.parent(p)));
+        let b = caught(|| (re.is_open(p), re.is_close(p), re.find_close(p), re.first_child(p), re.next_sibling(p), re.parent(p)));
+        if a != b {
+            return Err(format!("past_end({p})"));
+        }
+    }
+    // every node whose close is among the last few valid bits (its next_sibling looks past the end)
+    for p in 0..n.min(4096) {
+        if orig.is_open(p) {
+            if let Some(c) = orig.find_close(p) {
+                if c + 3 >= n && (orig.next_sibling(p) != re.next_sibling(p) || orig.first_child(p) != re.first_child(p)) {
+                    return Err(format!("navigation_at_end({p})"));
+                }
+            }
+        }
+    }
     for q in 0..64 {
         let p = match q {
             0 => 0,
@@ -541,10 +559,13 @@ impl C31 {
             let st = standard::build_semi_index(text);
             let si = simple::build_semi_index(text);
             let files: [(&[u8], &[u8]); 2] = [(st.ib_as_bytes(), st.bp_as_bytes()), (si.ib_as_bytes(), si.bp_as_bytes())];
-            for k in 0u8..8 {
+            for kk in 0u8..64 {
+                // the two files are read into independently placed buffers
+                let (k, k_bp) = (kk / 8, kk % 8);
                 for (which, (ibb, bpb)) in files.iter().enumerate() {
                     alloc::set_placement(k);
                     let ib_buf: Vec<u8> = ibb.to_vec();
+                    alloc::set_placement(k_bp);
                     let bp_buf: Vec<u8> = bpb.to_vec();
                     alloc::set_placement(0);
                     let al = ib_buf.as_ptr() as usize % 8;
@@ -560,8 +581,8 @@ impl C31 {
                     let f = if which == 0 { "standard::SemiIndex::from_bytes" } else { "simple::SemiIndex::from_bytes" };
                     match res {
                         Ok(true) => obs.reach.hit(R_SEMI),
-                        Ok(false) => fails.push(f, al, "read_back_buffer", "mismatch:semi_index_from_bytes".into(), json!({})),
-                        Err(class) => fails.push(f, al, "read_back_buffer", class, json!({})),
+                        Ok(false) => fails.push(f, al, "read_back_buffers_placed_independently", "mismatch:semi_index_from_bytes".into(), json!({"bp_alignment": bp_buf.as_ptr() as usize % 8})),
+                        Err(class) => fails.push(f, al, "read_back_buffers_placed_independently", class, json!({"bp_alignment": bp_buf.as_ptr() as usize % 8})),
                     }
                 }
             }
@@ -641,7 +662,20 @@ impl Scenario for C31 {
             }
             2 => {
                 let pairs = gen_len(rng, tier) * 8 + rng.urange(0, 40);
-                let (words, len) = gen_parens(rng, pairs);
+                let (mut words, len) = gen_parens(rng, pairs);
+                // A file written by another tool may carry garbage above `len` in its last
+                // word; the owned constructor masks it, a borrowed one has to ignore it.
+                if len % 64 != 0 && rng.chance(1, 2) {
+                    let keep = (1u64 << (len % 64)) - 1;
+                    let garbage = match rng.below(3) {
+                        0 => u64::MAX,
+                        1 => 1u64 << (len % 64), // just the first padding bit
+                        _ => rng.next_u64(),
+                    };
+                    if let Some(last) = words.last_mut() {
+                        *last = (*last & keep) | (garbage & !keep);
+                    }
+                }
                 Data::Parens { words, len: len as u64 }
             }
             _ => Data::Json { text: gen_json(rng) },
@@ -728,8 +762,10 @@ impl Scenario for C31 {
                 out.push(Case { data: Data::Parens { words: vec![0b01], len: 2 }, qseed: case.qseed });
             }
             Data::Json { text } => {
-                out.push(Case { data: Data::Json { text: b"[1]".to_vec() }, qseed: case.qseed });
-                out.push(Case { data: Data::Json { text: b"1".to_vec() }, qseed: case.qseed });
+                if text.as_slice() != b"[1]" && text.as_slice() != b"1" {
+                    out.push(Case { data: Data::Json { text: b"[1]".to_vec() }, qseed: case.qseed });
+                    out.push(Case { data: Data::Json { text: b"1".to_vec() }, qseed: case.qseed });
+                }
                 let ix = JsonIndex::build(text);
                 out.push(Case { data: Data::Words { words: ix.ib().to_vec() }, qseed: case.qseed });
             }
